@@ -28,6 +28,16 @@ def _perm_from_index(n, idx):
 class _NpRandom:
     def __init__(self, env):
         self.env = env
+        self.calls = []          # log of modelled calls (C17 looks at the weights)
+
+    def permutation(self, x):
+        a = _np.arange(x) if isinstance(x, (int, _np.integer)) else _np.array(x)
+        n = len(a)
+        self.calls.append(("permutation", n))
+        if n <= 1:
+            return a
+        idx = self.env.choose(math.factorial(n), "permutation(%d)" % n)
+        return a[_perm_from_index(n, idx)]
 
     def randint(self, low, high=None, size=None):
         if size is not None:
@@ -41,6 +51,8 @@ class _NpRandom:
     def choice(self, a, size=None, replace=True, p=None):
         a = _np.asarray(a)
         n = len(a)
+        self.calls.append(("choice", n, size, bool(replace),
+                           None if p is None else tuple(float(x) for x in p)))
         if p is not None:
             p = [float(x) for x in p]
             if len(p) != n:
@@ -116,9 +128,13 @@ class RandShim:
         return getattr(_random, name)
 
 
+LAST_NP = None
+
+
 def install(env):
+    global LAST_NP
     import matchingproblems.generator.generator_shared as gs
-    gs.np = NpShim(env)
+    gs.np = LAST_NP = NpShim(env)
     gs.random = RandShim(env)
 
 
